@@ -9,6 +9,7 @@ import (
 	"go/types"
 	"sort"
 	"strings"
+	"sync"
 
 	"golang.org/x/tools/go/ssa"
 )
@@ -125,8 +126,27 @@ func externName(f *types.Func) string {
 	return f.Pkg().Path() + "." + f.Name()
 }
 
-// directEffects computes the effects of fn's own instructions.
+var (
+	effMu    sync.Mutex
+	effCache = map[*ssa.Function]*effects{}
+)
+
+// directEffects computes (and caches) the effects of fn's own instructions.
 func directEffects(fn *ssa.Function) *effects {
+	effMu.Lock()
+	if e, ok := effCache[fn]; ok {
+		effMu.Unlock()
+		return e
+	}
+	effMu.Unlock()
+	e := computeEffects(fn)
+	effMu.Lock()
+	effCache[fn] = e
+	effMu.Unlock()
+	return e
+}
+
+func computeEffects(fn *ssa.Function) *effects {
 	e := newEffects()
 	add := func(m map[string][]site, k string, in ssa.Instruction, what string) {
 		m[k] = append(m[k], site{Fn: fn, Pos: in.Pos(), In: in, What: what})
